@@ -36,6 +36,15 @@ CHECKS = {
  "C09": dict(cat="other", tech="architectural byte-footprint analysis over optimised LLVM IR with an ISA table classifying every memory-touching intrinsic (size, fault suppression)",
    text="Same instance set as C08: the set of (base, byte range, read/write, fault-suppressed) accesses of each instance must lie inside [p, p+min(n,width)*size), be empty for n==0, and for gather/scatter contain only elements addressed by active lanes with sign-extended indices. MASKMOVDQU counts with its full 16-byte non-suppressed footprint (known finding).",
    note=TB + "; SDM fault-suppression statements for masked moves/gathers", ref="4/C09"),
+ "C11": dict(cat="other", tech="rounding-primitive normal forms (SDM ROUND/RNDSCALE immediates) + whole-catalogue effect inventory with bit-level provenance of MXCSR writers",
+   text="(value) ceil/floor/trunc/nearbyint/rint of every float type x configuration must be exactly one rounding primitive with the immediate / libm function of that name on the same lane (a different primitive is refuted from a value table, incl. mode-independent immediates for nearbyint/rint); round-half-away and SSE2 cvtt-based emulations are UNDECIDED. (fenv) every wrapper of the catalogue is scanned for MXCSR / fenv writers in the resolved IR: each LDMXCSR must write back bits 6..15 exactly as read by the preceding STMXCSR; a positive control requires the known writers (quiet comparisons below AVX) to be found.",
+   note=TB + "; quick tier scans the float families, thorough every family", ref="4/C11"),
+ "C13": dict(cat="other", tech="finite field-partition decision procedure over closed forms (sign x exponent x mantissa intervals induced by field-aligned atoms); fcmp predicate normal forms",
+   text="fpclassify/isnan/isinf/isfinite/isnormal/signbit of every float type x configuration: the lane's closed form may touch the value only through field-aligned comparison atoms (whole pattern, abs, exponent, mantissa, sign, vfpclass); it is then constant on each cell of a finite partition and is evaluated on every cell against the C library classification - exhaustive for all 2^32 / 2^64 patterns. Quiet comparisons must be the fcmp predicate of that name.",
+   note=TB + "; SDM VFPCLASS category table", ref="4/C13"),
+ "C17": dict(cat="other", tech="byte/bit provenance over optimised LLVM IR for every provided conversion pair",
+   text="convert<>, converting constructors, mask conversions and bit_cast for every provided pair of types of every configuration must be the identity on the representation (truth value per lane for masks, k-mask upper bits clear); width-1 cross-size conversions must be exactly trunc / sext-iff-signed / zext.",
+   note=TB + "; bit_cast analysed in the memcpy variant (C++11, clang)", ref="4/C17"),
 }
 
 NA = {
